@@ -50,7 +50,8 @@ ACTIONS = {
 # replay budget (problems x modes) per slice: None = everything
 QUICK_PER_SLICE = 700
 QUICK_PER_SLICE_SPECIAL = {"fine4_q": 300}
-THOROUGH_PER_SLICE = {"forms_q": 24000, "loose_q": 12000, "fine4_q": 6000, "s3_q": 12000, "s3_t": 24000, "s4k3_t": 36000, "chg_t": 24000, "dupl_t": 6000}
+THOROUGH_PER_SLICE = {"forms_q": 12000, "loose_q": 8000, "fine4_q": 4000, "s3_q": 8000, "s3_t": 16000,
+                      "s4k3_t": 24000, "chg_t": 16000, "dupl_t": 6000}
 
 # atomic number standing for row k (the charge row is key 0)
 ROW_KEYS = [1, 6, 8, 7, 16, 17, 11, 19, 20, 26, 29, 30, 12, 13, 15, 9, 35, 53, 25, 24]
